@@ -28,7 +28,6 @@ class Meta(K3W.Meta):
     title = 'Weak Kleene alt-Q Logic'
     description = 'Weak Kleene logic with alternate quantification'
     category_order = 8
-    extension_of = ('K3W') # proof?
 
 class Model(K3W.Model):
 
